@@ -46,6 +46,10 @@ def gen_pairs(rng, n):
         key = rng.choice(KEYS) if rng.random() < 0.75 else gen_text(rng)
         val = "" if rng.random() < 0.2 else gen_text(rng)
         out.append((key, val))
+    # the same key with the very same value again (equal short strings are
+    # one object in CPython: identity must not stand in for position)
+    while out and rng.random() < 0.35:
+        out.insert(rng.randrange(len(out) + 1), rng.choice(out))
     return out
 
 
